@@ -19,6 +19,8 @@ const Rule = "case = (grammar, one transformation): the grammar description line
 	"(5 / 4 when L_4(G) has more than 60 / 200 sentences; exact bounded-language fixpoint, independent of " +
 	"/repo); grammars: gx.Random under eight option mixes " +
 	"(bodies up to 8, nullable symbols anywhere, unit cycles, direct/indirect left recursion, common prefixes) " +
+	"+ terminals named like non-terminals ('X) + pipelines T1 then T2 for all ordered pairs (inputs that already " +
+	"carry primed / subscripted names) + bodies of 99-104 symbols (BIN's suffix limit) " +
 	"+ corpus + (thorough) every grammar over S,A / a,b with 1-2 alternatives of length <= 2 per non-terminal; " +
 	"non-trivial = the transformation changed the grammar and L_k(G) has at least 3 sentences; " +
 	"distinct = distinct (grammar, op)"
@@ -50,6 +52,7 @@ func ParseCase(c hx.Case) Parsed {
 		}
 	}
 	p.G, _ = gx.ParseLines(desc)
+	p.G = Norm(p.G)
 	return p
 }
 
@@ -71,7 +74,7 @@ func showSentence(w string) string {
 
 // ShowLang is the `lang` op's answer, byte-identical to the Lean driver's showLang.
 func ShowLang(g gx.G, k int) string {
-	l := LangOf(g, k)
+	l := BareLang(LangOf(g, k))
 	ws := make([]string, 0, len(l))
 	for w := range l {
 		ws = append(ws, showSentence(w))
@@ -161,9 +164,17 @@ func Exec(c hx.Case) hx.Result {
 		res.Outs = append(res.Outs, "ok")
 	}
 	valid, _ := Valid(g)
-	inScope := valid && Hygienic(g)
+	inScope := valid
 	if !inScope {
-		tags["input-not-valid-or-not-hygienic(oracle off)"] = true
+		tags["input-not-valid(oracle off)"] = true
+	}
+	if !Hygienic(g) {
+		tags["in:names-with-reserved-suffix"] = true
+	}
+	for _, t := range g.Terms {
+		if strings.HasPrefix(t, Q) {
+			tags["in:terminal-named-like-nonterminal"] = true
+		}
 	}
 	for _, f := range Features(g) {
 		tags[f] = true
@@ -177,7 +188,7 @@ func Exec(c hx.Case) hx.Result {
 		f := strings.Fields(op)
 		switch {
 		case len(f) == 1 && IsOp(f[0]):
-			out, kind, msg, hung := Timed(f[0], g.ToCFG())
+			out, kind, msg, hung := Timed(f[0], ToCFG(g))
 			tags["op="+f[0]] = true
 			switch {
 			case hung:
@@ -195,7 +206,7 @@ func Exec(c hx.Case) hx.Result {
 					}
 				}
 			default:
-				h := gx.FromCFG(out)
+				h := FromCFG(out)
 				res.Outs = append(res.Outs, "ok "+h.Show())
 				if h.Show() != g.Show() {
 					changed = true
@@ -211,7 +222,7 @@ func Exec(c hx.Case) hx.Result {
 			k, _ := strconv.Atoi(f[2])
 			h := g
 			if f[1] != "id" {
-				out, kind, _, hung := Timed(f[1], g.ToCFG())
+				out, kind, _, hung := Timed(f[1], ToCFG(g))
 				if hung {
 					res.Outs = append(res.Outs, "hang")
 					continue
@@ -220,7 +231,7 @@ func Exec(c hx.Case) hx.Result {
 					res.Outs = append(res.Outs, "panic")
 					continue
 				}
-				h = gx.FromCFG(out)
+				h = FromCFG(out)
 			}
 			line := ShowLang(h, k)
 			res.Outs = append(res.Outs, line)
@@ -310,14 +321,97 @@ func Malform(r *hx.Rand, g gx.G) gx.G {
 	return h
 }
 
+// KeywordNames gives a grammar the shape "non-terminal named after the keyword that introduces it": one
+// terminal is renamed to the name of a non-terminal X (written 'X) and put in front of up to two productions
+// of X, so that X → 'X … has a body that starts with a terminal called like its head.
+func KeywordNames(r *hx.Rand, g gx.G) gx.G {
+	x := hx.Pick(r, g.NonTerms)
+	t := hx.Pick(r, g.Terms)
+	h := gx.G{NonTerms: append([]string{}, g.NonTerms...), Start: g.Start}
+	for _, u := range g.Terms {
+		if u == t {
+			u = Q + x
+		}
+		h.Terms = append(h.Terms, u)
+	}
+	fronted := 0
+	for _, p := range g.Prods {
+		q := gx.P{Head: p.Head}
+		for _, w := range p.Body {
+			if w == t && !g.IsNonTerm(w) {
+				w = Q + x
+			}
+			q.Body = append(q.Body, w)
+		}
+		if p.Head == x && fronted < 2 && (len(q.Body) == 0 || q.Body[0] != Q+x) && r.Intn(3) != 0 {
+			q.Body = append([]string{Q + x}, q.Body...)
+			fronted++
+		}
+		h.Prods = append(h.Prods, q)
+	}
+	// drop duplicates the renaming may have produced
+	seen := map[string]bool{}
+	var ps []gx.P
+	for _, p := range h.Prods {
+		k := p.Head + "→" + strings.Join(p.Body, " ")
+		if !seen[k] {
+			seen[k] = true
+			ps = append(ps, p)
+		}
+	}
+	h.Prods = ps
+	return Norm(h)
+}
+
+// Piped returns T₁(g) for every transformation T₁ that returns a Verify()-valid grammar of moderate size:
+// the inputs of the second stage of a pipeline (names that already carry the suffixes AddNewNonTerminal
+// appends).
+func Piped(g gx.G) map[string]gx.G {
+	out := map[string]gx.G{}
+	for _, t1 := range Ops {
+		if t1 == "leftrec" && !LeftRecFeasible(g) {
+			continue
+		}
+		c, kind, _, hung := Timed(t1, ToCFG(g))
+		if hung || kind != "" {
+			continue
+		}
+		h := FromCFG(c)
+		if ok, _ := Valid(h); !ok || len(h.Prods) > 24 || h.Show() == g.Show() {
+			continue
+		}
+		out[t1] = h
+	}
+	return out
+}
+
+// LongBody is S → X … X (n symbols), A → a, with X = A (for BIN) or X = a (for CNF): n − 2 fresh names with
+// base S are needed; AddNewNonTerminal has 99 numeric suffixes.
+func LongBody(n int, terminal bool) gx.G {
+	g := gx.G{Terms: []string{"a"}, NonTerms: []string{"S", "A"}, Start: "S"}
+	x := "A"
+	if terminal {
+		x = "a"
+	}
+	body := make([]string, n)
+	for i := range body {
+		body[i] = x
+	}
+	g.Prods = []gx.P{{Head: "S", Body: body}, {Head: "A", Body: []string{"a"}}}
+	if terminal {
+		g.Prods = append(g.Prods, gx.P{Head: "S", Body: []string{"A"}})
+	}
+	return g
+}
+
 // LeftRecFeasible guards EliminateLeftRecursion's exponential substitution: the op is generated only when
 // the cycle-free grammar it starts from is small.
 func LeftRecFeasible(g gx.G) bool {
-	out, kind, _ := Apply("cycles", g.ToCFG())
+	out, kind, _ := Apply("cycles", ToCFG(g))
 	if kind != "" {
 		return true
 	}
-	h := gx.FromCFG(out)
+	h := FromCFG(out)
 	total := 0
 	for _, p := range h.Prods {
 		total += len(p.Body) + 1
@@ -400,6 +494,43 @@ func Main(run *hx.Run) {
 				}
 				lim.Do(run, op, caseFor(g, m.Name, op, langK), Exec)
 			}
+		}
+	}
+	{
+		// terminals named like non-terminals (if → 'if e stmt)
+		r := run.R.Fork("keyword-names")
+		for k := 0; k < run.Scale(14); k++ {
+			g := KeywordNames(r, GenGrammar(r, Mixes[k%len(Mixes)]))
+			for _, op := range OpsFor(g) {
+				lim.Do(run, op, caseFor(g, "keyword-names", op, 0), Exec)
+			}
+		}
+	}
+	{
+		// pipelines: every ordered pair (T₁, T₂); the second stage sees names that already carry suffixes
+		r := run.R.Fork("pipelines")
+		for k := 0; k < run.Scale(6); k++ {
+			g := GenGrammar(r, Mixes[k%len(Mixes)])
+			if r.Intn(4) == 0 {
+				g = KeywordNames(r, g)
+			}
+			piped := Piped(g)
+			for _, t1 := range Ops {
+				h, ok := piped[t1]
+				if !ok {
+					continue
+				}
+				for _, t2 := range OpsFor(h) {
+					lim.Do(run, t2, caseFor(h, "pipe-"+t1, t2, 0), Exec)
+				}
+			}
+		}
+	}
+	{
+		// bodies around the limit of BIN's 99 numeric suffixes (n − 2 fresh names for a body of n symbols)
+		for n := 99; n <= 104; n++ {
+			lim.Do(run, "cnfbin", caseFor(LongBody(n, false), "long-body", "cnfbin", 0), Exec)
+			lim.Do(run, "cnf", caseFor(LongBody(n, true), "long-body", "cnf", 0), Exec)
 		}
 	}
 	{
